@@ -26,6 +26,7 @@ def run(ctx, res):
                 'catalogue answer mocked (dialects MYSQL/POSTGRESQL/ORACLE) and through the extracted model; '
                 'non-trivial = name on which at least one key of the table matches; distinct = distinct upper-cased name')
     model = ctx.model
+    known_ids = set(ctx.known)
     catalog = model.run(['c20.catalog'])
     spec = {t: dec_opt(x) for t, x in catalog}
     names = []
@@ -69,6 +70,24 @@ def run(ctx, res):
                                                    % (n, d, exp, i),
                                            'replay': {'type_name': n, 'dialect': d, 'expected': exp, 'got': i}})
     res.samples = [{'type_name': n, 'model': dec_opt(m)} for n, m in list(zip(names, mres))[:6]]
+    # the catalogue query itself: executed against a catalogue that also lists objects whose names differ from the mapped table / column only
+    # in letter case -- the type found must be that of the column the mapping names
+    sample = [n for n in names if n in base_of][:ctx.scale(60, 400)]
+    sql_jobs = [{'fn': 'c20_lookup_sql', 'args': {'type_names': sample, 'dialect': d}} for d, _ in dialects]
+    for (d, _), r in zip(dialects, ctx.pool.map(sql_jobs, timeout=300)):
+        if not r['ok']:
+            res.disagreements.append({'what': 'catalogue-query job failed: %s %s' % (r.get('exc'), r.get('msg')), 'replay': {'dialect': d}})
+            continue
+        for n, iv in zip(sample, r['result']):
+            res.evaluations += 1
+            res.count('catalogue-query:' + d)
+            i = iv.get('v') if 'v' in iv else 'EXC:' + iv['exc']
+            exp = spec[base_of[n]]
+            if i != exp:
+                key = 'type:' + base_of[n].upper()
+                res.violations.append({'key': key if key in known_ids else None, 'sig': 'catalogue-query:' + d,
+                                       'what': 'catalogue query (dialect %s) for column C of table T, declared %r, next to t.C / T.c of other types: natural mapping says %s, implementation gives %s' % (d, n, exp, i),
+                                       'replay': {'type_name': n, 'dialect': d, 'expected': exp, 'got': i}})
     # the inference guard: all 2^5 x 2 x 2 combinations of the model against the property's reading
     guard_cases = []
     for bits in range(32):
